@@ -94,6 +94,16 @@ def run(chk):
                 cmp("r0.volume", sp.volume, float(p.volume), rel=1e-12)
                 cmp("r0.surface_area", sp.surface_area, float(p.surface_area), rel=1e-12)
             chk.count("radius:0" if r == 0 else "radius:>0")
+            # the core is reachable through the public .polyhedron accessor: after resizing it the Steiner quantities must be those
+            # of the NEW core (V, S, M scale with s^3, s^2, s for the similarity the volume setter applies)
+            if r is radii[1]:
+                st, _ = C.excname(setattr, sp.polyhedron, "volume", 8.0 * vol)
+                if st == "ok":
+                    ex2 = dict(radius=r, after="spheropolyhedron.polyhedron.volume = 8 * volume")
+                    V2, S2, M2 = 8 * vol, 4 * S, 2 * M
+                    cmp("spheropolyhedron.volume(core resized)", sp.volume, V2 + S2 * r + 4 * math.pi * M2 * r * r + 4 / 3 * math.pi * r ** 3, rel=1e-8, extra=ex2)
+                    cmp("spheropolyhedron.surface_area(core resized)", sp.surface_area, S2 + 8 * math.pi * M2 * r + 4 * math.pi * r * r, rel=1e-8, extra=ex2)
+                    cmp("spheropolyhedron.mean_curvature(core resized)", sp.mean_curvature, M2 + r, rel=1e-8, extra=ex2)
         chk.count("core:" + m["kind"])
         chk.sample(dict(kind=m["kind"], nverts=len(V), M_exact=M, M_impl=float(p.mean_curvature), nedges=nE))
     spheropolygons(chk, rng, 40 if chk.tier == "quick" else 600)
